@@ -4,8 +4,8 @@ pid=sys.argv[1]
 for l in open('/verif/properties.jsonl'):
     d=json.loads(l)
     if d['id']==pid: break
-wt=f"/tmp/mut/{pid}"
 import glob, os
+wt=os.environ.get("MUT_WT", f"/tmp/mut/{pid}")   # MUT_WT: reuse an already built worktree of another property
 prev=[]
 for f in sorted(glob.glob(f"/verif/seeded/{pid}_m*/meta.json")):
     try: prev.append(json.load(open(f)).get("summary") or "")
